@@ -54,6 +54,14 @@
 //! not answer; in the dedicated known-finding case `kf-zbdd-addvars-oom-capi`, generated with
 //! `gen … --kf 1`, the signature is `crash`).
 //!
+//! The generator emits, besides uniformly drawn calls, *degenerate shapes* (`Gen::degenerate_op`,
+//! `enum-degenerate-*`: the result is an argument or a constant — and(f,⊤), ite(c,g,g), empty
+//! variable sets, substitutions without pairs, …) whose result is released and collected right
+//! away: a wrapper handing back a borrowed reference there loses the argument's nodes, which the
+//! node balance / `capi-handle-changed` oracles report; and *order blocks* (`Gen::order_block`,
+//! `enum-order-*`: permutations that are not involutions, followed by `v2l`/`l2v` for every
+//! variable, `level`/`nvar` of every variable's function and name queries).
+//!
 //! `run` rebuilds the library from /repo's working tree first (`cargo build -p oxidd-ffi-c` into
 //! /verif/harness/target-ffi) unless `--no-build` is given; `--lib <path>` selects another file.
 
